@@ -197,6 +197,7 @@ impl Backend for SqliteBackend {
                 .rows_affected()
                 != 0;
             conn.return_to_pool().await;
+            self.key_cache.remove_profile(&name).await;
             Ok(ret)
         })
     }
